@@ -372,6 +372,15 @@ def c04_state_sweep(res, run, world, rng, st, cmds):
             if not (lo <= len(resp) <= hi):
                 res.violation("c04/count/%s/%02x" % (st, cmd & 0xE0), "%s: %d responses, acceptable %d..%d (%s)" % (what, len(resp), lo, hi, [r.hex() for r in resp[:3]]), sim=sim)
                 return False
+            if (st == "segup" and (cmd & 0xE0) == 0x00) or (st == "segdn" and (cmd & 0xE0) == 0x60):
+                # a segment of the opposite direction fits no running transfer: refused, and an upload never changes its object
+                if len(resp) != 1 or resp[0][0] != 0x80:
+                    res.violation("c04/verdict/opposite-direction-segment/%s" % st, "%s: a %s segment during a segmented %s was answered %s instead of an abort" % (
+                        what, "download" if st == "segup" else "upload", "upload" if st == "segup" else "download", [r.hex() for r in resp]), sim=sim)
+                    return False
+                if st == "segup" and sim.dump() != before:
+                    res.violation("c04/refusal-changed-storage/opposite-direction-segment", "%s: storage changed during an upload" % what, sim=sim)
+                    return False
             if len(resp) == 1 and resp[0][0] == 0x80:
                 code = parse_abort(resp[0])
                 after = sim.dump()
